@@ -700,9 +700,27 @@ class Translator:
             tup = "(" + ", ".join(san(v) for v in state) + ")" if n > 1 else san(state[0])
             tmp = self.fresh("wh")
             loop = "TR.whileLoop" if R else "TF.whileLoop 100000"
-            lets.append(f"let {tmp} : {T} := {loop} (fun (s_ : {T}) => {unpack}{cnd}) "
-                        f"(fun (s_ : {T}) => {unpack}" + "".join(l + "; " for l in body_lets) + f"{tup}) "
-                        f"({', '.join(init)})")
+            # the stop predicate and the iteration map become named definitions over the function's
+            # parameters and the locals the loop reads (so that theorems can speak about them)
+            used = {nd.id for b in [st.test] + st.body for nd in ast.walk(b) if isinstance(nd, ast.Name)}
+            free = [(san(v), "Prop" if R else "Bool") if k == "bool" else (san(v), ty)
+                    for v, k in env.items() if k in ("num", "bool") and v in used and v not in state
+                    and v not in [p for p, _ in self.pykinds]]
+            fsig = list(self.cur_sig) + [f"({v} : {t})" for v, t in free]
+            fargs = " ".join(self.cur_sig_names + [v for v, _ in free])
+            self._loops += 1
+            base = f"{self.cur_name}_loop{self._loops}"
+            pre = "noncomputable def" if R else "def"
+            self.aux.append(f"/-- `while {ast.unparse(st.test)}` of {self.cur_name}: the test, on the state ({', '.join(state)}) -/\n"
+                            f"{'def' if R else 'def'} {base}_cond {' '.join(fsig)} (s_ : {T}) : {'Prop' if R else 'Bool'} :=\n"
+                            + "".join(f"  let {san(v)} : {ty} := {self.proj('s_', i, n)}\n" for i, v in enumerate(state))
+                            + f"  {cnd}\n")
+            self.aux.append(f"/-- the body of that loop: one iteration, state -> state -/\n"
+                            f"{pre} {base}_body {' '.join(fsig)} (s_ : {T}) : {T} :=\n"
+                            + "".join(f"  let {san(v)} : {ty} := {self.proj('s_', i, n)}\n" for i, v in enumerate(state))
+                            + "".join(f"  {l}\n" for l in body_lets) + f"  {tup}\n")
+            ns = "TR" if R else "TF"
+            lets.append(f"let {tmp} : {T} := {loop} ({ns}.{base}_cond {fargs}) ({ns}.{base}_body {fargs}) ({', '.join(init)})")
             for i, v in enumerate(state):
                 lets.append(f"let {san(v)} : {ty} := {self.proj(tmp, i, n)}")
                 env[v] = "num"
@@ -803,6 +821,10 @@ class Translator:
         if fn.args.vararg is not None or fn.args.kwonlyargs:
             if tuple_params or none_params or spec.get("kwargs_empty"):
                 raise Refusal("*args / keyword-only parameters")
+        self.cur_sig = list(sig)
+        self.cur_sig_names = [x.split(" : ")[0].lstrip("(") for x in sig]
+        self.cur_name = san(fn.name)
+        self.aux, self._loops = [], 0
         lets, guards, notes = [], [], []
         body = list(fn.body)
         if body and isinstance(body[0], ast.Expr) and isinstance(body[0].value, ast.Constant):
@@ -928,7 +950,7 @@ class Translator:
                 out.append(f"/-- the inputs the Python function rejects (raises) -/\ndef {name}_rejects {' '.join(gsig)} : Prop :=\n  " + " ∨ ".join(guards) + "\n")
             else:
                 out.append(f"def {name}_rejects {' '.join(gsig)} : Bool :=\n  " + " || ".join(guards) + "\n")
-        return "\n".join(out), notes + self.notes
+        return "\n".join(self.aux + out), notes + self.notes
 
 
 LEAN_KEYWORDS = {"at", "from", "in", "fun", "end", "then", "else", "if", "do", "let", "have", "show", "with", "open", "λ", "Type", "by"}
